@@ -5,7 +5,7 @@
    transactions name each other (or themselves) in Conflicts; a transaction has no duplicate Conflicts
    attribute; SystemFee + NetworkFee < 2^64; balances < 2^255; the Feer's answers change only at
    RemoveStale ([OStale] carries the new ones). *)
-From NG Require Import Common.Tactics Mempool.Model Mempool.Spec Mempool.AddMain Mempool.Main Mempool.Legacy Mempool.Examples.
+From NG Require Import Common.Tactics Mempool.Model Mempool.Spec Mempool.AddMain Mempool.Main Mempool.Equiv Mempool.Legacy Mempool.Examples.
 Open Scope N_scope.
 
 (* after every sequence of Add / Remove / Verify / RemoveStale the invariant holds *)
@@ -52,6 +52,17 @@ Theorem C08_failed_add_identity : forall U, good_universe U -> forall bal s t e 
   bal_ok bal -> Inv U bal s -> U t -> add fixed_cfg bal s t = (RErr e, s') -> pool_eqv bal s s'.
 Proof. exact failed_add_identity. Qed.
 Print Assumptions C08_failed_add_identity.
+
+(* ... and "unchanged" is meant for every later operation: equivalent states give the same answer to any
+   operation and stay equivalent *)
+Theorem C08_step_respects_eqv : forall U, good_universe U -> forall bal a b o,
+  bal_ok bal -> Inv U bal a -> Inv U bal b -> pool_eqv bal a b -> op_ok U o ->
+  let ra := step fixed_cfg (mkState a bal) o in
+  let rb := step fixed_cfg (mkState b bal) o in
+  fst ra = fst rb /\ st_bal (snd ra) = st_bal (snd rb)
+  /\ pool_eqv (st_bal (snd ra)) (st_pool (snd ra)) (st_pool (snd rb)).
+Proof. exact step_respects_eqv. Qed.
+Print Assumptions C08_step_respects_eqv.
 
 (* Add always answers (ok or one of its error classes) and keeps the invariant *)
 Theorem C08_add_total : forall U, good_universe U -> forall bal s t,
